@@ -1,7 +1,9 @@
 package simrt
 
 import (
+	"cmp"
 	"runtime"
+	"slices"
 	"strconv"
 	"strings"
 )
@@ -23,4 +25,15 @@ func caller(skip int) string {
 		}
 	}
 	return name + ":" + strconv.Itoa(line)
+}
+
+// SortedKeys returns the keys of m in ascending order (used by the instrumenter to replace
+// iteration over maps whose loop body contains scheduling points).
+func SortedKeys[K cmp.Ordered, V any](m map[K]V) []K {
+	keys := make([]K, 0, len(m))
+	for k := range m {
+		keys = append(keys, k)
+	}
+	slices.Sort(keys)
+	return keys
 }
